@@ -157,6 +157,14 @@ Proof. reflexivity. Qed.
 Lemma for_each_nil fuel xs body env : for_each fuel xs body [] env = Ok (Next env).
 Proof. reflexivity. Qed.
 
+(* frame: the locals a loop does not assign keep their value *)
+Definition frame (mods : list string) (env env' : penv (V:=V)) : Prop :=
+  forall x, ~ In x mods -> lookup x env' = lookup x env.
+Lemma frame_refl mods env : frame mods env env. Proof. intros x _. reflexivity. Qed.
+Lemma frame_step mods env env1 env' :
+  frame mods env1 env' -> (forall x, ~ In x mods -> lookup x env1 = lookup x env) -> frame mods env env'.
+Proof. intros H1 H2 x Hx. rewrite H1 by exact Hx. apply H2. exact Hx. Qed.
+
 Lemma run_unfold fuel f args :
   run W fuel f args =
   match bind_params (pf_params f) args with
@@ -198,6 +206,15 @@ Ltac py := repeat (progress (repeat step1; unfold test; cbn; rewrite ?len3, ?len
 (* locals of an abstract environment known through hypotheses `lookup x env = Some v` *)
 Ltac lk := repeat match goal with H : lookup _ _ = _ |- _ => rewrite H end.
 Ltac pye := repeat (progress (py; lk)).
+(* side condition of frame_step for an environment built by updates of modified names *)
+Ltac frame_upd :=
+  let x := fresh "x" in let Hx := fresh "Hx" in
+  intros x Hx; cbn [lookup update];
+  repeat match goal with |- context [String.eqb x ?y] =>
+    destruct (String.eqb_spec x y) as [->|_]; [exfalso; apply Hx; cbn; tauto|] end;
+  reflexivity.
+(* use a frame hypothesis for one name *)
+Ltac fr H name := rewrite (H name) by (cbn; intuition discriminate).
 Ltac start W kk := (rewrite (run_unfold W)); unfold kk; cbn [bind_params pf_params pf_body].
 
 Global Hint Rewrite @exec_block_nil @exec_block_cons @exec_assign @exec_setattr @exec_return @exec_raise @exec_expr
